@@ -13,6 +13,9 @@ Definition w_mixed_clocks : yaml := (YMap [("version", (YStr "2.2")); ("metadata
 Definition w_header_members : yaml := (YMap [("version", (YStr "2.2")); ("metadata", (YMap [("trace", (YMap [("byte-order", (YStr "le")); ("packet-header-type", (YMap [("class", (YStr "struct")); ("fields", (YMap [("magic", (YMap [("class", (YStr "int")); ("size", (YInt (32)%Z))])); ("stream_instance_id", (YMap [("class", (YStr "int")); ("size", (YInt (8)%Z))]))]))]))])); ("streams", (YMap [("s", (YMap [("packet-context-type", (YMap [("class", (YStr "struct")); ("fields", (YMap [("packet_size", (YMap [("class", (YStr "int")); ("size", (YInt (32)%Z))])); ("content_size", (YMap [("class", (YStr "int")); ("size", (YInt (32)%Z))]))]))])); ("event-header-type", (YMap [("class", (YStr "struct")); ("fields", (YMap [("cpu", (YMap [("class", (YStr "int")); ("size", (YInt (8)%Z))]))]))])); ("events", (YMap [("e", (YMap [("payload-type", (YMap [("class", (YStr "struct")); ("fields", (YMap [("x", (YMap [("class", (YStr "int")); ("size", (YInt (8)%Z))]))]))]))]))]))]))]))]))]).
 Definition w_payload_mapping : yaml := (YMap [("version", (YStr "2.2")); ("metadata", (YMap [("clocks", (YMap [("A", (YMap [("freq", (YInt (1000)%Z))]))])); ("trace", (YMap [("byte-order", (YStr "le"))])); ("streams", (YMap [("s", (YMap [("packet-context-type", (YMap [("class", (YStr "struct")); ("fields", (YMap [("packet_size", (YMap [("class", (YStr "int")); ("size", (YInt (32)%Z))])); ("content_size", (YMap [("class", (YStr "int")); ("size", (YInt (32)%Z))]))]))])); ("events", (YMap [("e", (YMap [("payload-type", (YMap [("class", (YStr "struct")); ("fields", (YMap [("x", (YMap [("class", (YStr "int")); ("size", (YInt (64)%Z)); ("property-mappings", (YSeq [(YMap [("type", (YStr "clock")); ("name", (YStr "A")); ("property", (YStr "value"))])]))]))]))]))]))]))]))]))]))]).
 
+(* regression input: header structures without `fields` (fixed by /repo 616725c) *)
+Definition w_header_no_fields : yaml := (YMap [("version", (YStr "2.2")); ("metadata", (YMap [("trace", (YMap [("byte-order", (YStr "le")); ("packet-header-type", (YMap [("class", (YStr "struct"))]))])); ("streams", (YMap [("s", (YMap [("packet-context-type", (YMap [("class", (YStr "struct")); ("fields", (YMap [("packet_size", (YMap [("class", (YStr "int")); ("size", (YInt (32)%Z))])); ("content_size", (YMap [("class", (YStr "int")); ("size", (YInt (32)%Z))]))]))])); ("event-header-type", (YMap [("class", (YStr "struct"))])); ("events", (YMap [("e", (YMap [("payload-type", (YMap [("class", (YStr "struct")); ("fields", (YMap [("x", (YMap [("class", (YStr "int")); ("size", (YInt (8)%Z))]))]))]))]))]))]))]))]))]).
+
 (* the non-vacuity example of Props/C18.v (harness/props/c18_probes.py example_tree, loaded by the real barectf on every run) *)
 Definition ex_valid_doc : yaml := (YMap [("version", (YStr "2.1")); ("prefix", (YStr "my_tr__")); ("options", (YMap [("gen-prefix-def", (YBool true))])); ("metadata", (YMap [("$log-levels", (YMap [("WARN", (YInt (4)%Z))])); ("env", (YMap [("host", (YStr "h1")); ("n", (YInt (3)%Z))])); ("clocks", (YMap [("sys", (YMap [("freq", (YInt (1000000)%Z)); ("error-cycles", (YInt (2)%Z)); ("offset", (YMap [("seconds", (YInt (5)%Z))])); ("absolute", (YBool false)); ("$return-ctype", (YStr "unsigned long"))])); ("other", (YMap [("description", (YStr "unused")); ("return-ctype", YNull)]))])); ("trace", (YMap [("byte-order", (YStr "be")); ("uuid", (YStr "01234567-89ab-cdef-0123-456789abcdef")); ("packet-header-type", (YMap [("class", (YStr "struct")); ("fields", (YMap [("magic", (YMap [("class", (YStr "int")); ("size", (YInt (32)%Z))])); ("uuid", (YMap [("class", (YStr "array")); ("length", (YInt (16)%Z)); ("element-type", (YMap [("class", (YStr "int")); ("size", (YInt (8)%Z))]))])); ("stream_id", (YMap [("class", (YStr "int")); ("size", (YInt (8)%Z))]))]))]))])); ("$default-stream", (YStr "second")); ("streams", (YMap [("first", (YMap [("packet-context-type", (YMap [("class", (YStr "struct")); ("fields", (YMap [("timestamp_begin", (YMap [("class", (YStr "int")); ("size", (YInt (64)%Z)); ("signed", (YBool false)); ("property-mappings", (YSeq [(YMap [("type", (YStr "clock")); ("name", (YStr "sys")); ("property", (YStr "value"))])]))])); ("packet_size", (YMap [("class", (YStr "int")); ("size", (YInt (32)%Z))])); ("content_size", (YMap [("class", (YStr "int")); ("size", (YInt (32)%Z))])); ("my_extra", (YMap [("class", (YStr "int")); ("size", (YInt (5)%Z)); ("signed", YNull)])); ("timestamp_end", (YMap [("class", (YStr "int")); ("size", (YInt (64)%Z)); ("signed", (YBool false)); ("property-mappings", (YSeq [(YMap [("type", (YStr "clock")); ("name", (YStr "sys")); ("property", (YStr "value"))])]))])); ("events_discarded", (YMap [("class", (YStr "int")); ("size", (YInt (16)%Z))]))]))])); ("event-header-type", (YMap [("class", (YStr "struct")); ("fields", (YMap [("timestamp", (YMap [("class", (YStr "int")); ("size", (YInt (32)%Z)); ("signed", (YBool false)); ("property-mappings", (YSeq [(YMap [("type", (YStr "clock")); ("name", (YStr "sys")); ("property", (YStr "value"))])]))])); ("id", (YMap [("class", (YStr "int")); ("size", (YInt (8)%Z))]))]))])); ("event-context-type", (YMap [("class", (YStr "struct")); ("fields", (YMap [("cpu", (YMap [("class", (YStr "int")); ("size", (YInt (8)%Z))]))]))])); ("events", (YMap [("ev1", (YMap [("log-level", (YStr "WARN")); ("payload-type", (YMap [("class", (YStr "struct")); ("min-align", (YInt (16)%Z)); ("fields", (YMap [("e", (YMap [("class", (YStr "enum")); ("value-type", (YMap [("class", (YStr "int")); ("size", (YInt (8)%Z)); ("signed", (YBool true)); ("align", (YInt (8)%Z)); ("base", (YStr "hex"))])); ("members", (YSeq [(YStr "ZERO"); (YMap [("label", (YStr "TEN")); ("value", (YInt (10)%Z))]); (YStr "ELEVEN"); (YMap [("label", (YStr "RNG")); ("value", (YSeq [(YInt (20)%Z); (YInt (29)%Z)]))]); (YStr "THIRTY"); (YMap [("label", (YStr "ZERO")); ("value", (YInt (-1)%Z))])]))])); ("f", (YMap [("class", (YStr "floating-point")); ("size", (YMap [("exp", (YInt (11)%Z)); ("mant", (YInt (53)%Z))])); ("align", (YInt (64)%Z))])); ("s", (YMap [("class", (YStr "string")); ("encoding", (YStr "utf8"))])); ("a", (YMap [("class", (YStr "array")); ("length", (YInt (2)%Z)); ("element-type", (YMap [("class", (YStr "array")); ("length", (YInt (3)%Z)); ("element-type", (YMap [("class", (YStr "int")); ("size", (YInt (3)%Z))]))]))])); ("d", (YMap [("class", (YStr "array")); ("length", (YStr "dynamic")); ("element-type", (YMap [("class", (YStr "int")); ("size", (YInt (16)%Z)); ("align", (YInt (16)%Z))]))]))]))]))])); ("ev2", (YMap [("log-level", (YInt (3)%Z)); ("context-type", (YMap [("class", (YStr "struct")); ("fields", (YMap [("c", (YMap [("class", (YStr "int")); ("size", (YInt (1)%Z))]))]))])); ("payload-type", YNull)]))]))])); ("second", (YMap [("$default", YNull); ("packet-context-type", (YMap [("class", (YStr "struct")); ("fields", (YMap [("packet_size", (YMap [("class", (YStr "int")); ("size", (YInt (16)%Z))])); ("content_size", (YMap [("class", (YStr "int")); ("size", (YInt (16)%Z))]))]))])); ("events", (YMap [("only", (YMap [("payload-type", (YMap [("class", (YStr "struct")); ("fields", (YMap [("x", (YMap [("class", (YStr "int")); ("size", (YInt (64)%Z)); ("signed", (YBool true))]))]))]))]))]))]))]))]))]).
 
@@ -950,9 +953,9 @@ Proof.
     { unfold n0. lk. destruct (lookup "min-align" l); reflexivity. }
     assert (Hn0a : lookup "minimum-alignment" n0 = lookup "min-align" l).
     { unfold n0. lk. destruct (lookup "min-align" l); reflexivity. }
-    unfold opt_of in H.
+    unfold opt_of in H. unfold getn.
     destruct (lookup "fields" l) as [[| | | | | |fl]|] eqn:Ef; try discriminate.
-    - (* a mapping of fields *)
+    2:{ (* a mapping of fields *)
       destruct (omapM (fun kv => option_map (pair (fst kv)) (v2_ft n (snd kv))) fl) as [fs|] eqn:Efs; [|discriminate].
       inversion H; subst f. clear H.
       rewrite klookup_kids, Ef. cbn [option_map].
@@ -967,16 +970,16 @@ Proof.
       + now apply one_of_2.
       + kin.
       + rewrite <- E. apply rd_z_ext. rewrite lookup_app, Hn0a. destruct (lookup "min-align" l); reflexivity.
-      + right. exists ms. split; [|exact S2]. unfold opt_of. rewrite lookup_app, Hn0m. reflexivity.
-    - (* no `fields` *)
-      inversion H; subst f. clear H.
-      eexists. split; [reflexivity|]. cbn [erase_clk map].
-      eapply v3_ft_struct with (c := c).
-      + now apply class_of_lookup.
-      + now apply one_of_2.
-      + exact Hn0k.
-      + rewrite <- E. apply rd_z_ext. exact Hn0a.
-      + left. split; [|reflexivity]. unfold opt_of. now rewrite Hn0m. }
+      + right. exists ms. split; [|exact S2]. unfold opt_of. rewrite lookup_app, Hn0m. reflexivity. }
+    (* no `fields`, or `fields: null` *)
+    all: inversion H; subst f; clear H;
+      eexists; (split; [reflexivity|]); cbn [erase_clk map];
+      eapply v3_ft_struct with (c := c);
+      [ now apply class_of_lookup
+      | now apply one_of_2
+      | exact Hn0k
+      | rewrite <- E; apply rd_z_ext; exact Hn0a
+      | left; split; [|reflexivity]; unfold opt_of; now rewrite Hn0m ]. }
 Qed.
 
 (* ================================================================== data stream types: what the converter builds *)
@@ -1239,8 +1242,9 @@ Ltac refute w :=
    is now inside valid_v2 and is kept as a regression input of the harness *)
 Example w_real_byte_order_now_valid : valid_v2 10 w_real_byte_order = true.
 Proof. vm_compute. reflexivity. Qed.
-Theorem H2_fields_null_refuted : disagrees w_fields_null /\ conv_config w_fields_null = Crash.
-Proof. split; [refute w_fields_null|vm_compute; reflexivity]. Qed.
+(* H2 (`fields: null`, header structure without `fields`) was refuted by w_fields_null until fix 616725c of /repo *)
+Example w_fields_null_now_valid : valid_v2 10 w_fields_null = true /\ valid_v2 10 w_header_no_fields = true.
+Proof. split; vm_compute; reflexivity. Qed.
 Theorem H3_seq_num_refuted : disagrees w_seq_num.
 Proof. refute w_seq_num. Qed.
 Theorem H4_mixed_clocks_refuted : disagrees w_mixed_clocks.
@@ -1667,7 +1671,7 @@ Proof.
     destruct (opt_of "event-header-type" d) as [[| | | | | |tl]|]; try discriminate.
     - destruct (v2_fields_keys _ _ Eef) as [[A ->]|A].
       + unfold opt_of in A. unfold opt_fields.
-        destruct (lookup "fields" tl) as [[| | | | | |fl]|]; try discriminate. exists None. repeat split.
+        destruct (lookup "fields" tl) as [[| | | | | |fl]|]; try discriminate; exists None; repeat split.
       + rewrite A in V12. unfold opt_fields. rewrite A. exists (Some ef). repeat split. exact V12.
     - inversion Eef; subst ef. exists None. repeat split. }
   destruct Hehf as (ehf & Hopt & Hef & Hefok). clear V12.
@@ -1941,6 +1945,11 @@ Proof.
       * destruct mg; [destruct Rm3 as (y0 & m0 & _ & _ & A & B); eauto|destruct Rm3; auto].
       * destruct uf; [destruct Ru3 as (y0 & m0 & _ & _ & A & B); eauto|destruct Ru3; auto].
       * destruct sid; [destruct Rs3 as (y0 & m0 & _ & _ & A & B); eauto|destruct Rs3; auto].
+    + (* no `fields` property *)
+      destruct (v2_fields_keys _ _ Hf) as [[_ ->]|A]; [|rewrite Efl in A; discriminate].
+      unfold opt_fields. rewrite Efl. cbn [rbind conv_ft_if_exists].
+      unfold rd_ft, opt_of in Hm, Hu, Hs. simpl in Hm, Hu, Hs. inversion Hm; inversion Hu; inversion Hs; subst.
+      eexists. split; [reflexivity|]. apply Hfin; reflexivity.
   - (* no packet header *)
     inversion Hf; subst phf. cbn [rbind conv_ft_if_exists lookup].
     unfold rd_ft, opt_of in Hm, Hu, Hs. simpl in Hm, Hu, Hs. inversion Hm; inversion Hu; inversion Hs; subst.
@@ -2132,15 +2141,42 @@ Proof.
   destruct (F 10%nat w_seq_num g Hg) as [t' [H1 H2]]. exact (Hn t' H1 H2).
 Qed.
 
-Definition ft_full_statement : Prop :=
-  forall fuel y f, v2_ft fuel y = Some f -> exists y', conv_ft y = Ok y' /\ v3_ft fuel y' = Some (erase_clk f).
-
-Definition w_ft_fields_null : yaml := YMap [("class", YStr "struct"); ("fields", YNull)].
-Theorem ft_full_refuted :
-  ~ ft_full_statement
-  /\ (v2_ft 2 w_ft_fields_null = Some (FStruct None []) /\ conv_ft w_ft_fields_null = Crash).
+(* the shape constraint ft_conv_ok is implied by the barectf 2 reading being defined (since fix 616725c) *)
+Lemma v2_ft_conv_ok : forall fuel y f, v2_ft fuel y = Some f -> ft_conv_ok fuel y = true.
 Proof.
-  split.
-  - intros F. destruct (F 2%nat w_ft_fields_null (FStruct None []) eq_refl) as [y' [H _]]. vm_compute in H. discriminate.
-  - split; reflexivity.
+  induction fuel as [|n IH]; intros y f H; [discriminate|].
+  destruct y as [| | | | | |l]; try discriminate.
+  cbn [v2_ft] in H. cbn [ft_conv_ok].
+  destruct (class_of l) as [c|] eqn:Ec; [|discriminate]. cbn [obind] in H.
+  destruct (String.eqb c "array") eqn:Ca.
+  - apply String.eqb_eq in Ca. subst c. cbn [one_of existsb orb String.eqb Ascii.eqb Bool.eqb] in H.
+    destruct (negb (keys_in ["class"; "length"; "element-type"] l)); [discriminate|].
+    destruct (lookup "element-type" l) as [e|]; [|discriminate].
+    destruct (lookup "length" l) as [[| |len| |s| |]|]; try discriminate.
+    + destruct (v2_ft n e) eqn:E; [|discriminate]. eapply IH; eauto.
+    + rewrite match_dynamic in H. destruct (String.eqb s "dynamic"); [|discriminate].
+      destruct (v2_ft n e) eqn:E; [|discriminate]. eapply IH; eauto.
+  - destruct (one_of c ["struct"; "structure"]) eqn:Cs; [|reflexivity].
+    assert (Hstruct : (if negb (keys_in ["class"; "min-align"; "fields"] l) then None else
+                       obind (rd_z "min-align" l) (fun ma =>
+                       match opt_of "fields" l with
+                       | None => Some (FStruct ma [])
+                       | Some (YMap fl) => option_map (FStruct ma)
+                                             (omapM (fun kv => option_map (pair (fst kv)) (v2_ft n (snd kv))) fl)
+                       | Some _ => None
+                       end)) = Some f).
+    { apply one_of_2 in Cs. destruct Cs; subst c; exact H. }
+    clear H. destruct (negb (keys_in ["class"; "min-align"; "fields"] l)); [discriminate|].
+    inv_obind Hstruct. unfold opt_of in Hstruct.
+    destruct (lookup "fields" l) as [[| | | | | |fl]|]; try discriminate; try reflexivity.
+    destruct (omapM (fun kv => option_map (pair (fst kv)) (v2_ft n (snd kv))) fl) as [fs|] eqn:Efs; [|discriminate].
+    clear Hstruct. revert fs Efs. induction fl as [|[k y] fl IHl]; intros fs Efs; [reflexivity|].
+    simpl in Efs. destruct (v2_ft n y) as [fy|] eqn:Ey; simpl in Efs; [|discriminate].
+    destruct (omapM (fun kv => option_map (pair (fst kv)) (v2_ft n (snd kv))) fl) as [fs'|]; simpl in Efs; [|discriminate].
+    simpl. rewrite (IH _ _ Ey). simpl. eapply IHl. reflexivity.
 Qed.
+
+(* field types at full strength: no hypothesis besides "the barectf 2 reading understands the node" *)
+Theorem ft_equiv_full : forall fuel y f,
+  v2_ft fuel y = Some f -> exists y', conv_ft y = Ok y' /\ v3_ft fuel y' = Some (erase_clk f).
+Proof. intros fuel y f H. eapply ft_equiv; [exact H|eapply v2_ft_conv_ok; exact H]. Qed.
